@@ -488,6 +488,8 @@ func c18PtrEnvs() (ptr, plain map[string]any) {
 		"m":    map[string]*time.Time{"k": &t1, "z": nil},
 		"mi":   map[string]*int{"k": &n1, "z": nil},
 		"ints": []*int{&n1, nil, &n2}, "times": []*time.Time{&t2, &t1}, "anys": []any{&n1, &s1, &t1, ni},
+		// records whose property is a pointer: map: "n" is a property lookup per element
+		"recs": []any{map[string]any{"n": &n1}, map[string]any{"n": &n2}, map[string]any{"n": &n1}, map[string]any{"n": ni}},
 	}
 	plain = map[string]any{
 		"pt": t1, "pn": n1, "ps": s1, "nilt": nil,
@@ -496,6 +498,7 @@ func c18PtrEnvs() (ptr, plain map[string]any) {
 		"m":    map[string]any{"k": t1, "z": nil},
 		"mi":   map[string]any{"k": n1, "z": nil},
 		"ints": []any{n1, nil, n2}, "times": []any{t2, t1}, "anys": []any{n1, s1, t1, nil},
+		"recs": []any{map[string]any{"n": n1}, map[string]any{"n": n2}, map[string]any{"n": n1}, map[string]any{"n": nil}},
 	}
 	return
 }
@@ -557,6 +560,7 @@ func TestC18(t *testing.T) {
 		}
 		// (filters that look at the elements of an array without a lookup - compact, uniq, sort, contains - are left out:
 		// the statement speaks of pointers reached by variable or property lookup)
+		tpls = append(tpls, `{{ recs | map: "n" | compact | sort | join: "," }}`, `{{ recs | map: "n" | uniq | size }}`, `{{ recs | map: "n" | compact | size }}`, `{% assign ns = recs | map: "n" %}{{ ns contains 7 }}|{{ ns | first | plus: 1 }}`, `{{ recs | sort: "n" | map: "n" | join: "," }}`)
 		tpls = append(tpls, `{% for p in times %}{{ p | date: "%Y" }},{% endfor %}`, `{% for p in ints %}{{ p | plus: 1 }},{% endfor %}`,
 			`{% for kv in m %}{{ kv[0] }}={{ kv[1] }};{% endfor %}`, `{% for kv in mi %}{{ kv[0] }}={{ kv[1] | plus: 1 }};{% endfor %}`, `{{ m | size }}|{{ mi.size }}`, `{% assign q = pt %}{{ q }}|{{ q | date: "%s" }}`, `{% capture q %}{{ pt }}{{ pn }}{{ ps }}{% endcapture %}{{ q }}`)
 		for i, tpl := range tpls {
